@@ -15,10 +15,10 @@
 // Echo arguments recorded by every reply handler:
 //   args[0] = ctx.gas_used
 //   args[1] = ctx.events.len() * 16 + ctx.msg_responses.len()
-//   args[2] = payload.len() * 256 + payload[0]
-//   args[3] = success handlers with data: 1000 + data.len()*256 + data[0], or 1 for `None`
-//             error handlers: 2000 + error.len()*256 + error[0]
-//             always: 3000 (Ok) / 4000 (Err) + same detail (data of the response / error text)
+//   args[2] = enc(payload)            (enc = length and first three bytes packed)
+//   args[3] = success handlers with data: K_DATA + enc(data), or K_NONE for `None`
+//             error handlers: K_ERR + enc(error text)
+//             always: K_ALW_OK + enc(response data or empty) / K_ALW_ERR + enc(error text)
 //             success handlers without data marker: 0
 
 use support::echo::MyErr;
@@ -40,18 +40,31 @@ impl From<MyErr> for RpErr {
     }
 }
 
+/// Length and first three bytes of a byte string packed into one number (byte-for-byte comparison
+/// of payloads / data of up to 3 bytes without any container).
+pub fn enc(s: &[u8]) -> u64 {
+    let b0 = if s.len() > 0 { s[0] as u64 } else { 0 };
+    let b1 = if s.len() > 1 { s[1] as u64 } else { 0 };
+    let b2 = if s.len() > 2 { s[2] as u64 } else { 0 };
+    ((s.len() as u64) << 24) | (b0 << 16) | (b1 << 8) | b2
+}
+
 pub fn pl(p: &sylvia::cw_std::Binary) -> u64 {
-    let s = p.as_slice();
-    (s.len() as u64) * 256 + if s.is_empty() { 0 } else { s[0] as u64 }
+    enc(p.as_slice())
 }
 
 pub fn st(s: &str) -> u64 {
-    let b = s.as_bytes();
-    (b.len() as u64) * 256 + if b.is_empty() { 0 } else { b[0] as u64 }
+    enc(s.as_bytes())
 }
 
+pub const K_DATA: u64 = 1 << 40;
+pub const K_NONE: u64 = 1;
+pub const K_ERR: u64 = 2 << 40;
+pub const K_ALW_OK: u64 = 3 << 40;
+pub const K_ALW_ERR: u64 = 4 << 40;
+
 pub mod rp {
-    use super::{pl, st, RpErr};
+    use super::{pl, st, RpErr, K_ALW_ERR, K_ALW_OK, K_DATA, K_ERR, K_NONE};
     use support::echo::{outcome, rec_mut};
     use sylvia::ctx::{InstantiateCtx, ReplyCtx};
     use sylvia::cw_std::{Binary, Response, SubMsgResult};
@@ -89,7 +102,7 @@ pub mod rp {
         #[sv::msg(reply, reply_on=error)]
         pub fn on_err(&self, mut ctx: ReplyCtx, error: String, #[sv::payload(raw)] p: Binary) -> Result<Response, RpErr> {
             let (g, e) = ctx_args(&ctx);
-            rec_mut(410, [g, e, pl(&p), 2000 + st(&error)], &mut ctx.deps, &ctx.env, None);
+            rec_mut(410, [g, e, pl(&p), K_ERR + st(&error)], &mut ctx.deps, &ctx.env, None);
             outcome()
         }
 
@@ -102,8 +115,8 @@ pub mod rp {
         ) -> Result<Response, RpErr> {
             let (g, e) = ctx_args(&ctx);
             let d = match &data {
-                Some(b) => 1000 + pl(b),
-                None => 1,
+                Some(b) => K_DATA + pl(b),
+                None => K_NONE,
             };
             rec_mut(420, [g, e, pl(&p), d], &mut ctx.deps, &ctx.env, None);
             outcome()
@@ -112,14 +125,14 @@ pub mod rp {
         #[sv::msg(reply, handlers=[both], reply_on=error)]
         pub fn both_err(&self, mut ctx: ReplyCtx, error: String, #[sv::payload(raw)] p: Binary) -> Result<Response, RpErr> {
             let (g, e) = ctx_args(&ctx);
-            rec_mut(421, [g, e, pl(&p), 2000 + st(&error)], &mut ctx.deps, &ctx.env, None);
+            rec_mut(421, [g, e, pl(&p), K_ERR + st(&error)], &mut ctx.deps, &ctx.env, None);
             outcome()
         }
 
         #[sv::msg(reply, handlers=[rev], reply_on=error)]
         pub fn rev_err(&self, mut ctx: ReplyCtx, error: String, #[sv::payload(raw)] p: Binary) -> Result<Response, RpErr> {
             let (g, e) = ctx_args(&ctx);
-            rec_mut(430, [g, e, pl(&p), 2000 + st(&error)], &mut ctx.deps, &ctx.env, None);
+            rec_mut(430, [g, e, pl(&p), K_ERR + st(&error)], &mut ctx.deps, &ctx.env, None);
             outcome()
         }
 
@@ -136,12 +149,12 @@ pub mod rp {
             #[allow(deprecated)]
             let d = match &result {
                 SubMsgResult::Ok(r) => {
-                    3000 + match &r.data {
+                    K_ALW_OK + match &r.data {
                         Some(b) => pl(b),
                         None => 0,
                     }
                 }
-                SubMsgResult::Err(s) => 4000 + st(s),
+                SubMsgResult::Err(s) => K_ALW_ERR + st(s),
             };
             rec_mut(440, [g, e, pl(&p), d], &mut ctx.deps, &ctx.env, None);
             outcome()
@@ -162,7 +175,7 @@ pub mod rp {
             #[sv::payload(raw)] p: Binary,
         ) -> Result<Response, RpErr> {
             let (g, e) = ctx_args(&ctx);
-            rec_mut(460, [g, e, pl(&p), 1000 + pl(&data)], &mut ctx.deps, &ctx.env, None);
+            rec_mut(460, [g, e, pl(&p), K_DATA + pl(&data)], &mut ctx.deps, &ctx.env, None);
             outcome()
         }
 
@@ -175,8 +188,8 @@ pub mod rp {
         ) -> Result<Response, RpErr> {
             let (g, e) = ctx_args(&ctx);
             let d = match &data {
-                Some(b) => 1000 + pl(b),
-                None => 1,
+                Some(b) => K_DATA + pl(b),
+                None => K_NONE,
             };
             rec_mut(470, [g, e, pl(&p), d], &mut ctx.deps, &ctx.env, None);
             outcome()
